@@ -1,6 +1,8 @@
-# F33: set_index when no row has a non-null key at run time
-import pandas as pd, numpy as np, dask_expr as dx
-pdf = pd.DataFrame({"a": [0., 1, 3, 3], "k": [np.nan, 0., 0., 3.]})
-pieces = [pdf.iloc[0:2], pdf.iloc[2:4]]
-df = dx.from_map(lambda i: pieces[i], [0, 1], meta=pdf.iloc[:0])
-print(df[df.a < 1].set_index("k").compute())        # keeps only the row whose key is NaN
+# F33: set_index when (almost) no row has a non-null key at run time (from a C02 replay)
+import sys; sys.path.insert(0, "/verif/harness")
+from vx import rel
+tabs = rel.make_tables(1, nrows=(6, 5))
+env = rel.dask_sources(tabs, {"T1": ("cuts", [1, 3, 3], False), "T2": ("from_pandas", 2)})
+t1 = env["T1"]
+x = t1[t1.a < t1.b].set_index("k")       # keeps one row, whose key is NaN
+print(x.compute())
